@@ -57,6 +57,8 @@ impl IncanLanguageServer {
                 for error in &errors {
                     diagnostics.push(compile_error_to_diagnostic(error, source, uri));
                 }
+                #[cfg(incan_verif)]
+                crate::lsp::verif::pause("before_publish", version).await;
                 self.client
                     .publish_diagnostics(uri.clone(), diagnostics, Some(version))
                     .await;
@@ -72,6 +74,8 @@ impl IncanLanguageServer {
                 for error in &errors {
                     diagnostics.push(compile_error_to_diagnostic(error, source, uri));
                 }
+                #[cfg(incan_verif)]
+                crate::lsp::verif::pause("before_publish", version).await;
                 self.client
                     .publish_diagnostics(uri.clone(), diagnostics, Some(version))
                     .await;
@@ -81,6 +85,8 @@ impl IncanLanguageServer {
 
         // Step 3: Type check (with multi-file import resolution)
         let mut checker = typechecker::TypeChecker::new();
+        #[cfg(incan_verif)]
+        crate::lsp::verif::pause("before_deps", version).await;
         let (deps, mut dep_summary_diags) = self.collect_dependency_modules(uri, &ast, source, version).await;
         let dep_refs: Vec<(&str, &Program)> = deps.iter().map(|(name, program)| (name.as_str(), program)).collect();
 
@@ -106,6 +112,8 @@ impl IncanLanguageServer {
         }
 
         // Store AST for hover/goto
+        #[cfg(incan_verif)]
+        crate::lsp::verif::pause("before_store", version).await;
         {
             let mut docs = self.documents.write().await;
             docs.insert(
@@ -120,6 +128,8 @@ impl IncanLanguageServer {
         }
 
         // Publish diagnostics (even if empty, to clear old ones)
+        #[cfg(incan_verif)]
+        crate::lsp::verif::pause("before_publish", version).await;
         self.client
             .publish_diagnostics(uri.clone(), diagnostics, Some(version))
             .await;
@@ -510,6 +520,8 @@ impl LanguageServer for IncanLanguageServer {
         let uri = params.text_document.uri;
 
         // Remove document from cache
+        #[cfg(incan_verif)]
+        crate::lsp::verif::pause("close_before_remove", -1).await;
         let mut docs = self.documents.write().await;
         docs.remove(&uri);
 
